@@ -326,16 +326,26 @@ class Connection(object):
             return self._local_objects[value]
         if label == consts.LABEL_REMOTE_REF:
             id_pack = (str(value[0]), value[1], value[2])  # so value is a id_pack
+            cls = None
+            if id_pack not in self._proxy_cache:
+                # finding the proxy's class may need a round trip (HANDLE_INSPECT) whose nested serve() can
+                # receive this very object: look the cache up (again) only once the class is known
+                cls = self._netref_class(id_pack)
             if id_pack in self._proxy_cache:
                 proxy = self._proxy_cache[id_pack]
                 proxy.____refcount__ += 1  # if cached then remote incremented refcount, so sync refcount
             else:
-                proxy = self._netref_factory(id_pack)
+                if cls is None:  # the cached proxy died between the two lookups
+                    cls = self._netref_class(id_pack)
+                proxy = cls(self, id_pack)
                 self._proxy_cache[id_pack] = proxy
             return proxy
         raise ValueError("invalid label %r" % (label,))
 
     def _netref_factory(self, id_pack):  # boxing
+        return self._netref_class(id_pack)(self, id_pack)
+
+    def _netref_class(self, id_pack):  # boxing
         """id_pack is for remote, so when class id fails to directly match """
         cls = None
         if id_pack[2] == 0 and id_pack in self._netref_classes_cache:
@@ -350,7 +360,7 @@ class Connection(object):
                 # only use cached netrefs for classes
                 # ... instance caching after gc of a proxy will take some mental gymnastics
                 self._netref_classes_cache[id_pack] = cls
-        return cls(self, id_pack)
+        return cls
 
     def _dispatch_request(self, seq, raw_args):  # dispatch
         try:
